@@ -1,4 +1,6 @@
-(* C04 — what a case that passes [run_case_checked] guarantees. *)
+(* C04 — what a case that passes [Suite.case_ok] guarantees ([case_ok] is evaluated
+   on every case of suite "txn" by [Instance.run_case_inst]; the former entry
+   point [Suite.run_case_checked] is evaluated by no suite any more). *)
 From Coq Require Import List ZArith Bool.
 From Verif Require Import C04.Model C04.Spec C04.Proofs C04.Quota C04.QuotaProofs C04.Suite.
 Import ListNotations.
